@@ -81,6 +81,12 @@ func (p *Planner) makeTypeIndexJoin(
 	var joinPlan planNode
 	var err error
 
+	if parent.collection == nil {
+		// The parent is not backed by a collection (e.g. the _group of a commits query),
+		// so the sub selection can not be a relation.
+		return nil, client.NewErrFieldNotExist(subType.Name)
+	}
+
 	typeFieldDesc, ok := parent.collection.Definition().GetFieldByName(subType.Name)
 	if !ok {
 		return nil, client.NewErrFieldNotExist(subType.Name)
